@@ -85,6 +85,7 @@ def normalize_helpers(prog, config="default"):
     from .roles import Roles, ROLES
     if inline.load_baseline(config) is None:
         return []
+    reid = inline.reidentify(prog, config)
     reordered = inline.normalize_param_order(prog, config)
     R = Roles(prog)
     protect = set()
@@ -97,9 +98,14 @@ def normalize_helpers(prog, config="default"):
             protect.add(f.id)
     inline.strip_debug_asserts(prog)
     done = inline.normalize(prog, protect, config)
+    nd = inline.devirtualize_fnptr_calls(prog)
+    if nd:
+        done = list(done) + ["<%d calls through function pointers to known lib functions made direct>" % nd]
     n = inline.desugar_closures(prog)
     if n:
         done = list(done) + ["<%d combinator/closure call sites desugared>" % n]
+    if reid:
+        done = list(done) + ["<moved / re-signed private functions given back their committed identity: %s>" % ", ".join(x.rsplit("::", 1)[-1] for x in reid)]
     if reordered:
         done = list(done) + ["<parameter order restored: %s>" % ", ".join(x.rsplit("::", 1)[-1] for x in reordered)]
     return done
